@@ -34,6 +34,32 @@ def link_faulty(rng: Rng, oracle, kmax=5, pacing=0.3, cancel=False, **force):
     return l.sess, oracle(tr, c, r), c, {"plan": plan_text(l.plan), "stuck": r.stuck}
 
 
+def link_faulty_history(rng: Rng, oracle, kmax=4, **force):
+    """two transactions of the same request on ONE handler pair: the first over a clean link, or cancelled
+    by one of the users on the way; the second over a faulty link.  What the first left behind in the
+    handler objects (completion state, Finished parameters, trackers, timers) must not leak into the
+    second (C01: no success without a verified file; C05: the write model of the second transaction)."""
+    c = rand_cfg(rng, metadata_only=False, **force)
+    if c.cks in (0, 15):
+        c.mode, c.put_mode = "A", "-"
+        kinds = ("drop", "dup", "delay")
+    else:
+        kinds = ("drop", "dup", "delay", "flip")
+    fs_kind = "native" if rng.chance(0.25) else "mem"
+    first = rng.choice(("clean", "clean", "cancel"))
+    l1 = g.link_session(rng, 0, fs_kind=fs_kind, cfg=c, cancel=first == "cancel")
+    r1 = l1.run()
+    n_sd = 2 + len(c.data) // max(1, c.seg_len) + 1
+    from link import Link, rand_plan
+    l2 = Link(c, sess=l1.sess, rng=rng, plan=rand_plan(rng, rng.randrange(0, kmax + 1), n_sd + 2, 4, kinds))
+    if not r1.stuck:
+        r = l2.run()
+    else:
+        r = r1
+    tr = Trace.of_session(l2.sess)
+    return l2.sess, oracle(tr, c, r), c, {"first": first, "plan": plan_text(l2.plan), "stuck": r.stuck}
+
+
 def link_clean(rng: Rng, oracle, **force):
     c = rand_cfg(rng, **force)
     # a third of the sessions on the native filestore (sandbox): the library's own checksum and file
@@ -214,7 +240,8 @@ def c10_sig(tr: Trace, c, r):
 
 PLANS = {
     "C01": [("link-faulty", 900, lambda rng: link_faulty(rng, lambda tr, c, r: o.o_C01(tr, c))),
-            ("dest-honest-sender", 500, lambda rng: dest_honest(rng))],
+            ("dest-honest-sender", 500, lambda rng: dest_honest(rng)),
+            ("link-faulty-after-history", 300, lambda rng: link_faulty_history(rng, lambda tr, c, r: o.o_C01(tr, c)))],
     "C02": [("link-fault-free", 1500, lambda rng: link_clean(rng, o.o_C02))],
     "C03": [("link-recovery", 700, lambda rng: link_recovery(rng, o.o_C03)),
             ("link-all-single-and-double-drops", 900, DropEnum(o.o_C03))],
@@ -225,7 +252,8 @@ PLANS = {
             # the same destination path on one handler: what is on disk is what the write model says
             ("dest-arbitrary-native", 250, lambda rng: dest_any(rng, ot(o.o_C05), fault_p=0.3, fs_kind="native",
                                                                 n_tx=rng.choice((2, 3)))),
-            ("link-faulty", 400, lambda rng: link_faulty(rng, lambda tr, c, r: o.o_C05(tr)))],
+            ("link-faulty", 400, lambda rng: link_faulty(rng, lambda tr, c, r: o.o_C05(tr))),
+            ("link-faulty-after-history", 250, lambda rng: link_faulty_history(rng, lambda tr, c, r: o.o_C05(tr)))],
     "C06": [("dest-grid-acked", 1500, lambda rng: dest_grid_acked(rng, oc(o.o_C06)))],
     "C07": [("source-undisturbed", 1200, lambda rng: source_any(
         rng, lambda tr, c, r: o.Fails(list(o.o_C07(tr, c)) + list(o.o_seglen(tr, c))), quiet=True, well_behaved=True)),
